@@ -232,9 +232,10 @@ def _do(io, w, registry, op, j):
         c = make_curve(w, registry, "a", "/data/a.jpk-force", 0)
     elif op == "A-otherfit":
         c = make_curve(w, registry, "a", "/data/a.jpk-force", 0, fit_tag="a2")
-        # decisively different (outside the tolerance of the closeness test the code uses)
-        assume(real("a2_fit0") > real("a_fit0") + 1 + core.sym_abs(real("a_fit0")))
-        assume(real("a_fit0") >= 0)
+        # a different fit at any force scale (newton-scale forces are ~1e-9):
+        # the first fitted force value is at least doubled
+        assume(real("a_fit0") > 0)
+        assume(real("a2_fit0") >= 2 * real("a_fit0"))
     elif op == "B-enum":
         c = make_curve(w, registry, "b", "/data/a.jpk-force", 1)
     elif op == "C-file":
